@@ -188,6 +188,69 @@ func c20AbsenceOpDecoder(pop tmcrypto.ProofOp) (merkle.ProofOperator, error) {
 	return op, nil
 }
 
+// c20StoreProof: the operator chain from (store name, key) to the snapshot's AppHash, as the application serves it:
+// a merkle.ValueOp (key present) or the absence op (key absent) inside the store, then a merkle.ValueOp for the
+// store's entry in the top-level tree.
+func c20StoreProof(snap *c20Snapshot, name string, key []byte) []tmcrypto.ProofOp {
+	st := snap.stores[name]
+	ops := []tmcrypto.ProofOp{}
+	if _, present := st[string(key)]; present {
+		_, proofs := merkle.ProofsFromByteSlices(st.leaves())
+		idx := sort.SearchStrings(st.keys(), string(key))
+		ops = append(ops, merkle.NewValueOp(key, proofs[idx]).ProofOp())
+	} else {
+		op := c20AbsenceOp{key: key}
+		for _, k := range st.keys() {
+			vh := sha256.Sum256([]byte(st[k]))
+			op.Pairs = append(op.Pairs, [2][]byte{[]byte(k), vh[:]})
+		}
+		ops = append(ops, op.ProofOp())
+	}
+	_, tproofs := merkle.ProofsFromByteSlices(snap.topLeaves())
+	ti := sort.SearchStrings(snap.storeNames(), name)
+	ops = append(ops, merkle.NewValueOp([]byte(name), tproofs[ti]).ProofOp())
+	return ops
+}
+
+// c20StepOp is a hashing step that is not bound to an element of the key path (GetKey() == nil; the proof-operator
+// format allows these, cf. the key-less operator in crypto/merkle's own TestProofOperators): it runs the
+// merkle.ValueOp encoded in its Data but consumes no key. The application never serves it; it is registered with
+// the verifying client so that a lying server may use it.
+const c20StepOpType = "c20:step"
+
+type c20StepOp struct {
+	inner merkle.ProofOperator
+	raw   tmcrypto.ProofOp
+}
+
+func (s c20StepOp) Run(args [][]byte) ([][]byte, error) { return s.inner.Run(args) }
+func (s c20StepOp) GetKey() []byte                       { return nil }
+func (s c20StepOp) ProofOp() tmcrypto.ProofOp            { return s.raw }
+
+// c20AsStepOp wraps a merkle.ValueOp's wire form into the key-less step's wire form.
+func c20AsStepOp(valueOp tmcrypto.ProofOp) tmcrypto.ProofOp {
+	bz, err := valueOp.Marshal()
+	if err != nil {
+		panic(err)
+	}
+	return tmcrypto.ProofOp{Type: c20StepOpType, Data: bz}
+}
+
+func c20StepOpDecoder(pop tmcrypto.ProofOp) (merkle.ProofOperator, error) {
+	if pop.Type != c20StepOpType {
+		return nil, fmt.Errorf("unexpected op type %q", pop.Type)
+	}
+	var innerPop tmcrypto.ProofOp
+	if err := innerPop.Unmarshal(pop.Data); err != nil {
+		return nil, err
+	}
+	inner, err := merkle.ValueOpDecoder(innerPop)
+	if err != nil {
+		return nil, err
+	}
+	return c20StepOp{inner: inner, raw: pop}, nil
+}
+
 // c20AppRecord is what the application itself answered for one block — the ground truth for BlockResults.
 type c20AppRecord struct {
 	Begin    abci.ResponseBeginBlock
@@ -351,22 +414,7 @@ func (a *c20App) Query(req abci.RequestQuery) abci.ResponseQuery {
 	if !req.Prove {
 		return res
 	}
-	ops := []tmcrypto.ProofOp{}
-	if present {
-		_, proofs := merkle.ProofsFromByteSlices(st.leaves())
-		idx := sort.SearchStrings(st.keys(), string(req.Data))
-		ops = append(ops, merkle.NewValueOp(req.Data, proofs[idx]).ProofOp())
-	} else {
-		op := c20AbsenceOp{key: req.Data}
-		for _, k := range st.keys() {
-			vh := sha256.Sum256([]byte(st[k]))
-			op.Pairs = append(op.Pairs, [2][]byte{[]byte(k), vh[:]})
-		}
-		ops = append(ops, op.ProofOp())
-	}
-	_, tproofs := merkle.ProofsFromByteSlices(snap.topLeaves())
-	ti := sort.SearchStrings(snap.storeNames(), name)
-	ops = append(ops, merkle.NewValueOp([]byte(name), tproofs[ti]).ProofOp())
+	ops := c20StoreProof(snap, name, req.Data)
 	res.ProofOps = &tmcrypto.ProofOps{Ops: ops}
 	return res
 }
